@@ -211,6 +211,30 @@ func c18(c *ev.Ctx) {
 		bcase{"return-in-all-arms", "function f(a) { if (a) { return 1; } else { return 2; } } return f(0);"},
 		bcase{"constant-folding-to-limit", "return 65533 + 1;"}, bcase{"constant-folding-over-limit", "return 65534 + 1;"}, bcase{"fold-then-jump", "if (1 + 1 == 2) { return 3 * 3; } return 4 - 5;"},
 		bcase{"false-branch-removed", "if (false) { t(1); } else { t(2); } while (false) { t(3); } return 1 == 2;"})
+	// element / argument / pair counts around the byte and 16-bit boundaries of the operand
+	for _, cnt := range []int{0, 1, 255, 256, 257, 1000, 65535} {
+		if cnt > 1000 && !c.Thorough() {
+			continue
+		}
+		els := make([]string, cnt)
+		for i := range els {
+			els[i] = fmt.Sprint(i % 7)
+		}
+		bs = append(bs, bcase{fmt.Sprintf("array-literal-%d-elements", cnt), "a = [" + strings.Join(els, ", ") + "]; return len(a);"})
+		if cnt <= 1000 {
+			prs := make([]string, cnt)
+			for i := range prs {
+				prs[i] = fmt.Sprintf("\"k%d\": %d", i, i)
+			}
+			bs = append(bs, bcase{fmt.Sprintf("hash-literal-%d-pairs", cnt), "h = {" + strings.Join(prs, ", ") + "}; return len(h);"})
+			bs = append(bs, bcase{fmt.Sprintf("call-with-%d-arguments", cnt), "return len(sprintf(\"x\", " + strings.Join(append([]string{"0"}, els...), ", ") + "));"})
+			ps := make([]string, cnt)
+			for i := range ps {
+				ps[i] = fmt.Sprintf("p%d", i)
+			}
+			bs = append(bs, bcase{fmt.Sprintf("function-with-%d-parameters", cnt), "function many(" + strings.Join(ps, ", ") + ") { return " + fmt.Sprint(cnt) + "; } return many(" + strings.Join(els, ", ") + ");"})
+		}
+	}
 	// jump operands near the 16-bit limit: bodies just below 64 KB
 	for _, stmts := range []int{5000, 7270, 7280} {
 		var b strings.Builder
